@@ -113,3 +113,14 @@ func (w *RecWriterRF) ReadFrom(r io.Reader) (int64, error) {
 type FaultWriterSW struct{ FaultWriter }
 
 func (w *FaultWriterSW) WriteString(s string) (int, error) { return w.Write([]byte(s)) }
+
+// FailedCallFirst runs call against a destination that refuses further bytes after a few (position chosen by n), every
+// third n: the workload then goes on with the same library state a long-lived process has after a failed write. The
+// outcome of the failed call itself is C19's business; a panic in it is left to the caller's next guarded call.
+func FailedCallFirst(n int, call func(w io.Writer)) {
+	if n%3 != 0 {
+		return
+	}
+	defer func() { recover() }()
+	call(&FaultWriter{Limit: []int{0, 1, 9, 10, 11, 17, 33, 64, 150, 700}[(n/3)%10], Short: (n/3)%2 == 0})
+}
